@@ -20,7 +20,7 @@ RULE = (
     "terms of the reference block d term/d group (obtained with everything selected, cross-checked by central finite "
     "differences of the term values for the scalar parameters); unselected pairs contribute exactly zero (checked "
     "per term); loss values bitwise independent of the mask; string form == boolean tree form; default == nn only. "
-    "Eager evaluation is sampled. Non-trivial = all reference blocks non-zero (>1e-6) and, for a given group, pairwise "
+    "Eager evaluation is sampled. The per-unknown terms of a 2-unknown SystemLossODE (2 unknowns x 2 terms x 3 groups = 2^12 masks) are enumerated the same way against additive reference blocks. Non-trivial = all reference blocks non-zero (>1e-6) and, for a given group, pairwise "
     "distinct across terms. distinct_nontrivial counts distinct mask assignments."
 )
 ASSUMPTIONS = ["jax.grad of the library's own loss with every block selected is the reference for the blocks; it is "
@@ -220,7 +220,7 @@ def enum_blocks(tier):
     if tier == "quick":
         # 4 blocks of 1024 spread over the 2^15 space (stride 8 covers every bit position)
         for b in range(4):
-            yield {"kind": "nonstatio", "spec": det_spec("nonstatio", b % 2), "block": [b, 1024], "stride": 32, "mode": "jit"}
+            yield {"kind": "nonstatio", "spec": det_spec("nonstatio", b % 2), "block": [b, 1024], "stride": 31, "mode": "jit"}
     else:
         for v in variants:
             for b in range(32):
@@ -313,4 +313,156 @@ def subchecks():
         SubCheck(name="string_tree_default_equivalence", mode="enum", enumerate=enum_strings, run_case=run_strings,
                  shards={"quick": 4, "thorough": 16}, clear_every=10,
                  doc="from_str strings vs boolean trees vs omitted terms (default nn_params), masks and gradients"),
+    ]
+
+
+# ---- per-unknown terms of a system loss ------------------------------------------------------------
+SYS_UNKNOWNS = ["u", "v"]
+SYS_TERMS = ["initial_condition", "observations"]
+
+
+def det_sys_spec(variant):
+    r = np.random.RandomState(500 + variant)
+    q = lambda lo, hi: float(np.round(r.uniform(lo, hi) * 16) / 16) or 0.5
+    fld = lambda: {"din": 1, "m": 1, "post": "id", "mono": None, "lin": None, "gauss": None,
+                   "quad": [[[q(-0.5, 0.5)]]], "sin": [[[q(0.5, 2), q(-1, 1), [q(0.5, 1.5)]], [q(-2, -0.5), q(-1, 1), [q(-1.5, -0.5)]]]]}
+    spec = {"kind": "ode", "dim": 0, "hetero": None, "param_batch": None, "box": {"min": [0.0], "max": [1.0]},
+            "unknowns": {n: {"field": fld(), "transform": "affine"} for n in SYS_UNKNOWNS},
+            "eq_params": {"theta": q(0.75, 1.75), "phi": q(0.25, 1.0)},
+            "batch": {"t": [0.125, 0.5, 0.875]},
+            "ic": {n: {"t0": 0.0, "u0": q(0.5, 1.5)} for n in SYS_UNKNOWNS},
+            "obs": {n: {"pinn_in": [[q(0, 1)] for _ in range(3)], "val": [[q(-1, 1)] for _ in range(3)], "obs_slice": None,
+                        "eq_params": {}} for n in SYS_UNKNOWNS},
+            "boundary": None, "norm": None,
+            "w": {"dyn_loss": q(0.5, 2), "initial_condition": {"u": q(0.5, 2), "v": q(0.5, 2)},
+                  "observations": {"u": q(0.5, 2), "v": q(0.5, 2)}}}
+    from vpkit.systems import nfeat
+
+    spec["equations"] = {"e1": {"coef": [[q(0.5, 1.5) for _ in range(nfeat(2, 2))]]}}
+    return spec
+
+
+def sys_bits(mi):
+    out, b = {}, 0
+    for n in SYS_UNKNOWNS:
+        out[n] = {}
+        for t in SYS_TERMS:
+            out[n][t] = {}
+            for g in GROUPS:
+                out[n][t][g] = bool((mi >> b) & 1)
+                b += 1
+    return out
+
+
+def make_sys_dk(bits):
+    import jax.numpy as jnp
+    import jinns
+
+    out = {}
+    for n in SYS_UNKNOWNS:
+        kw = {}
+        for t in SYS_TERMS + ["dyn_loss"]:
+            gb = bits[n].get(t, {"nn_params": True, "theta": False, "phi": False})
+            kw[t] = jinns.parameters.Params(nn_params=jnp.asarray(gb["nn_params"]),
+                                            eq_params={"theta": jnp.asarray(gb["theta"]), "phi": jnp.asarray(gb["phi"])})
+        out[n] = jinns.parameters.DerivativeKeysODE(**kw)
+    out["e1"] = out["u"]  # entry for the equation key (not used for routing: the system dynamic term is nn-only)
+    return out
+
+
+def _sys_flat(g):
+    import jax
+
+    out = {"theta": np.asarray(g.eq_params["theta"], dtype=np.float64).ravel(),
+           "phi": np.asarray(g.eq_params["phi"], dtype=np.float64).ravel()}
+    for n in SYS_UNKNOWNS:
+        out["nn:" + n] = np.concatenate([np.asarray(l, dtype=np.float64).ravel() for l in jax.tree_util.tree_leaves(g.nn_params[n])])
+    return out
+
+
+def run_sys_block(case):
+    """Gradient routing of the per-unknown terms (initial condition, observations) of a SystemLossODE."""
+    import equinox as eqx
+    import jax
+
+    from vpkit.systems import build_system
+
+    spec = case["spec"]
+    labels = ["system-ode", "jit"]
+    nbits = len(SYS_UNKNOWNS) * len(SYS_TERMS) * len(GROUPS)
+    loss, params, batch = build_system(spec, derivative_keys_dict=make_sys_dk(sys_bits((1 << nbits) - 1)))
+
+    def with_masks(l, mi):
+        dk = make_sys_dk(sys_bits(mi))
+        return eqx.tree_at(lambda m: [m.u_constraints_dict[n].derivative_keys for n in SYS_UNKNOWNS], l, [dk[n] for n in SYS_UNKNOWNS])
+
+    def total_grad(l, p, b):
+        def tot(pp):
+            t, terms = l.evaluate(pp, b)
+            return t, (t, terms)
+
+        g, (t, terms) = jax.grad(tot, has_aux=True)(p)
+        return g, t, terms
+
+    jg = jax.jit(total_grad)
+    # reference blocks: every (unknown, term) alone selected for everything, the others for nothing -> difference to baseline
+    g_none, t0, terms0 = jg(with_masks(loss, 0), params, batch)
+    base = _sys_flat(g_none)  # contribution of the dynamic term (nn only) + nothing else
+    blocks = {}
+    b = 0
+    for n in SYS_UNKNOWNS:
+        for t in SYS_TERMS:
+            mi = ((1 << len(GROUPS)) - 1) << b
+            g, _, _ = jg(with_masks(loss, mi), params, batch)
+            fl = _sys_flat(g)
+            blocks[(n, t)] = {k: fl[k] - base[k] for k in fl}
+            b += len(GROUPS)
+    groups_of = lambda n: {"nn_params": "nn:" + n, "theta": "theta", "phi": "phi"}
+    nz = all(np.max(np.abs(blocks[(n, t)][groups_of(n)[g]])) > 1e-6 for n in SYS_UNKNOWNS for t in SYS_TERMS for g in GROUPS)
+    if np.max(np.abs(base["theta"])) != 0 or np.max(np.abs(base["phi"])) != 0:
+        return fail("system-unselected-eq-params-not-exactly-zero", {"theta": base["theta"].tolist()}, labels=labels)
+    start, count = case["block"]
+    stride = case.get("stride", 1)
+    checked = 0
+    for mi in range(start, start + count * stride, stride):
+        bits = sys_bits(mi)
+        g, t, terms = jg(with_masks(loss, mi), params, batch)
+        if not np.array_equal(np.asarray(t), np.asarray(t0)):
+            return fail("loss-value-depends-on-derivative-keys", {"mask": mi, "system": True}, labels=labels)
+        fl = _sys_flat(g)
+        want = {k: base[k].copy() for k in base}
+        for n in SYS_UNKNOWNS:
+            for tname in SYS_TERMS:
+                for gname in GROUPS:
+                    if bits[n][tname][gname]:
+                        key = groups_of(n)[gname]
+                        want[key] = want[key] + blocks[(n, tname)][key]
+        for k in want:
+            scale = 1 + sum(float(np.max(np.abs(blocks[bt][k]))) for bt in blocks)
+            if not np.max(np.abs(fl[k] - want[k])) <= 1e-9 * scale:
+                return fail("gradient-routing:system-per-unknown-terms", {"mask": mi, "group": k, "got": fl[k][:3].tolist(),
+                                                                         "want": want[k][:3].tolist()}, labels=labels)
+        checked += 1
+    return ok(nontrivial=nz, labels=labels, count=checked, detail={"masks": [start, count, stride]})
+
+
+def enum_sys_blocks(tier):
+    if tier == "quick":
+        for b in range(2):
+            yield {"spec": det_sys_spec(b), "block": [b, 584], "stride": 7}
+    else:
+        for v in range(2):
+            for b in range(4):
+                yield {"spec": det_sys_spec(v), "block": [1024 * b, 1024]}
+
+
+_base_subchecks = subchecks
+
+
+def subchecks():  # noqa: F811
+    return _base_subchecks() + [
+        SubCheck(name="system_per_unknown_terms_jit", mode="enum", enumerate=enum_sys_blocks, run_case=run_sys_block,
+                 shards={"quick": 2, "thorough": 8}, clear_every=2,
+                 doc="SystemLossODE (2 unknowns): every mask of (unknown x {initial condition, observations} x group) - 2^12, "
+                     "sampled with stride in the quick tier - vs additive reference blocks"),
     ]
